@@ -22,11 +22,12 @@ RULE = ('cases are 2-6 cleartext messages built from an adversarial line alphabe
 TIERS = {"quick": {"runs": 6000, "budget_s": 80}, "thorough": {"runs": 200000, "budget_s": 1500}}
 PROBES = ('line_dash', 'line_dash_space', 'line_from', 'line_armor_like', 'line_empty', 'trailing_blanks', 'crlf_in_text', 'no_final_newline',
           'empty_text', 'non_ascii', 'long_line', 'two_signers', 'gateway_crlf', 'gateway_strip_blanks', 'gateway_add_blanks', 'ref_signed',
-          'visible_change_rejected', 'hash_header_checked', 'non_latin1', 'lone_cr', 'odd_line_break')
+          'visible_change_rejected', 'hash_header_checked', 'non_latin1', 'lone_cr', 'odd_line_break', 'odd_trailing_whitespace')
 LINES = ['plain text line', '- dash then space', '-dash', '--', '-----BEGIN PGP SIGNATURE-----', '-----BEGIN PGP SIGNED MESSAGE-----',
          'From the start of line', '', '', 'trailing space ', 'trailing tab\t', 'both \t ', ' leading', 'ünï cödé', 'x' * 300,
          '- ', 'Hash: SHA256', 'a: b', '=abcd', 'snow ☃ man', 'Ã© is not é', '日本語 € ',
-         'form\x0cfeed', 'next\x85line', 'vertical\x0btab', 'sep\u2028arator', 'lone\r-cr then dash', 'x\r-----BEGIN PGP SIGNATURE-----\ry']
+         'form\x0cfeed', 'next\x85line', 'vertical\x0btab', 'sep\u2028arator', 'lone\r-cr then dash', 'x\r-----BEGIN PGP SIGNATURE-----\ry',
+         'page break\x0c', 'col\x0b', 'no-break\xa0', 'no-break then blanks\xa0 \t', 'ideographic\u3000', 'thin\u2009', 'unit sep\x1f', 'nel\x85']
 
 
 def gen_text(rng, non_ascii=True):
@@ -106,6 +107,8 @@ def classify(text, ctx):
             cls.add('non_latin1')
         if '\r' in ln:
             cls.add('lone_cr')
+        if ln and ln[-1].isspace() and ln[-1] not in ' \t\r' or ln.rstrip(' \t')[-1:].isspace() and ln.rstrip(' \t')[-1:] not in ('\r', ''):
+            cls.add('odd_trailing_whitespace')
         if any(c in ln for c in '\x0b\x0c\x1c\x1d\x1e\x85\u2028\u2029'):
             cls.add('odd_line_break')
     if '\r\n' in text:
